@@ -257,7 +257,7 @@ func observeC10(g graph.Graph) string {
 
 func runC10(c *Ctx) {
 	c.Level = "exploration"
-	c.Rule = "every labelled graph with n<=5 in four representations, n=6 dense+sparse (n=7 dense in thorough): Distance for every vertex pair, Eccentricity/Diameter/Radius against Floyd-Warshall, Girth, ConnectedComponent(v) for every v, ConnectedComponents, BiconnectedComponents (blocks = maximal connected vertex sets without a cut vertex, articulation vertices by deletion), NumberOfCycles by DFS enumeration, NumberOfInducedPaths/Cycles by subset tests for every maxLength in [-1,n+1]; isomorphism-invariant counts computed once per class (orbit sweep) and required of every labelled member; non-trivial = graph with at least one edge"
+	c.Rule = "every labelled graph with n<=5 in four representations, n=6 dense+sparse (n=7 dense in thorough): Distance for every vertex pair, Eccentricity/Diameter/Radius against Floyd-Warshall, Girth, ConnectedComponent(v) for every v, ConnectedComponents, BiconnectedComponents (blocks = maximal connected vertex sets without a cut vertex, articulation vertices by deletion), NumberOfCycles by DFS enumeration, NumberOfInducedPaths/Cycles by subset tests for every maxLength in [-1,n+1]; larger structured graphs (paths, cycles, stars, trees, unions, cycle chains, grids with 33-140 vertices, dense and sparse, relabelled) against independent BFS / lowpoint reference algorithms; isomorphism-invariant counts computed once per class (orbit sweep) and required of every labelled member; non-trivial = graph with at least one edge"
 	maxDense := 6
 	if c.Thorough() {
 		maxDense = 7
@@ -301,6 +301,7 @@ func runC10(c *Ctx) {
 		}
 		c.Count(fmt.Sprintf("labelled_graphs_n%d_x_reps%d", n, len(reprs)), total)
 	}
+	c10Large(c)
 	var vcs []viewCase
 	for n := 3; n <= 5; n++ {
 		vcs = append(vcs, viewHistoryCases(n, "c10-values")...)
@@ -317,6 +318,11 @@ func runC10(c *Ctx) {
 }
 
 func replayC10(kind string, raw json.RawMessage) *Failure {
+	if kind == "c10-large" {
+		var lc largeCase
+		json.Unmarshal(raw, &lc)
+		return evalC10Large(lc)
+	}
 	if kind == "view-history" {
 		var vc viewCase
 		json.Unmarshal(raw, &vc)
